@@ -15,7 +15,7 @@ From J5V.lib Require Import Outcome.
 From J5V.model Require Import RulesDecl RulesWrite RulesSpec Validate RulesSpecDec Regex.
 From J5V.gen Require Id62Gen RulesGen.
 From J5V.proofs Require Import RulesProofs RulesGenProofs RegexProofs RulesRegexProofs.
-From J5V.model Require Import RulesRead RulesNested RulesNestedSem RulesOneof.
+From J5V.model Require Import RulesRead RulesEnum RulesNested RulesNestedSem RulesOneof RulesInlineEnum.
 From J5V.proofs Require Import RulesNestedSemProofs RulesOneofProofs.
 Import ListNotations.
 Local Open Scope N_scope.
@@ -177,6 +177,25 @@ Example C12_oneof_example :
     validate_obj re_frag_ok re_frag_match (defined_numbers env) os [FAbsent; FAbsent] = VReject /\
     member_objb re_frag_match env ds [FAbsent; FOne (VInt 0)] = true.
 Proof. eexists. split; [vm_compute; reflexivity|]. repeat split; vm_compute; reflexivity. Qed.
+
+(* ... a field over an enum declared inline (model/RulesInlineEnum.v): its in / not-in rules
+   name the options of THAT enum; the environment is the one the inline declaration denotes
+   (stated or default prefix). The property theorem applies with that environment: *)
+Theorem C12_inline_enum :
+  forall re_ok re_match pat_sem, engine_ok re_ok re_match pat_sem ->
+  forall idx d i c fv,
+    let env := env_of_decl (ie_decl (p_name d) i) in
+    wf_env env = true -> key_placement_ok d = true -> evaluable re_ok d = true ->
+    write_inline_enum idx d i = Ok c -> fvalue_typed d fv = true ->
+    (validate_sem re_ok re_match (defined_numbers env) (fst c) fv = VAccept <-> rule_sem pat_sem env d fv) /\
+    (validate_sem re_ok re_match (defined_numbers env) (fst c) fv = VReject <-> ~ rule_sem pat_sem env d fv).
+Proof.
+  intros re_ok re_match pat_sem He idx d i c fv env Hwf Hkp Hev Hw Hty.
+  unfold write_inline_enum in Hw. apply obind_ok in Hw as [o [Ho Hw]]. inversion Hw; subst c. cbn [fst].
+  exact (c12_main re_ok re_match pat_sem (proj1 He) (proj1 (proj2 He)) (engine_id62_bool re_ok re_match pat_sem He)
+                  env idx d o fv Hwf Hkp Hev Ho Hty).
+Qed.
+Print Assumptions C12_inline_enum.
 
 (* ... and to messages that hold messages: inline types (README "Inline Types"). A declaration
    tree [nschema] of objects (model/RulesNested.v) compiles to a message with nested
